@@ -170,24 +170,61 @@ def judge(matches, spec, ascii_, wide, fullword, buflen):
     return viol, known
 
 
-# ---------------------------------------------------------------- robust running (a crashing case must not hide the others)
-def run_robust(core, cmd, cases, jobs=None):
-    """like core.run_parallel, but when a process dies the cases without output are re-run one by one.
-    Returns (outputs keyed by id, crashers [(case_line, rc, stderr)])"""
-    out, rc, err = core.run_parallel(cmd, cases, jobs=jobs)
-    omap = {l.split(" ", 1)[0]: l for l in out}
-    crashers = []
-    if rc != 0:
-        missing = [c for c in cases if c.split(" ", 1)[0] not in omap]
-        from concurrent.futures import ThreadPoolExecutor
-        def one(c):
-            return c, core.run_lines(cmd, [c], timeout=120)
-        with ThreadPoolExecutor(16) as ex:
-            for c, (o, r1, e1) in ex.map(one, missing):
-                if o:
-                    omap[c.split(" ", 1)[0]] = o[0]
-                if r1 != 0:
-                    crashers.append((c, r1, e1))
+# ---------------------------------------------------------------- robust running (a crashing / hanging case must not hide the others)
+def _run_once(core, cmd, lines, timeout):
+    """returns (stdout lines, rc or 'timeout', stderr tail)"""
+    import subprocess, os
+    e = dict(os.environ)
+    e.setdefault("ASAN_OPTIONS", "detect_leaks=1:abort_on_error=0:exitcode=99")
+    e.setdefault("UBSAN_OPTIONS", "print_stacktrace=1:halt_on_error=1")
+    p = subprocess.Popen(cmd, stdin=subprocess.PIPE, stdout=subprocess.PIPE, stderr=subprocess.PIPE, env=e)
+    try:
+        out, err = p.communicate("".join(l + "\n" for l in lines).encode(), timeout=timeout)
+        return out.decode("latin1").splitlines(), p.returncode, err.decode("latin1")[-3000:]
+    except subprocess.TimeoutExpired:
+        p.kill()
+        out, err = p.communicate()
+        return out.decode("latin1").splitlines(), "timeout", err.decode("latin1")[-3000:]
+
+
+def run_robust(core, cmd, cases, jobs=None, chunk_timeout=120, single_timeout=12, confirm=True):
+    """Runs the cases in parallel chunks.  When a process dies or exceeds the timeout, the first case without output is
+    the culprit: it is re-run alone (confirmation), recorded, and the rest of the chunk continues.
+    Returns (outputs keyed by id, crashers [(case_line, rc, stderr)]) — a hang is a crasher with rc == 'timeout'."""
+    from concurrent.futures import ThreadPoolExecutor
+    import os
+    jobs = jobs or min(16, os.cpu_count() or 4)
+    chunks = [cases[i::jobs] for i in range(jobs)] if len(cases) >= 4 * jobs else [cases]
+
+    def work(chunk):
+        omap, crashers = {}, []
+        todo = list(chunk)
+        while todo:
+            out, rc, err = _run_once(core, cmd, todo, chunk_timeout)
+            ids = set()
+            for l in out:
+                k = l.split(" ", 1)[0]
+                omap[k] = l; ids.add(k)
+            if rc == 0:
+                break
+            idx = next((i for i, c in enumerate(todo) if c.split(" ", 1)[0] not in ids), None)
+            if idx is None:
+                break            # failure after the last case (e.g. leak report at exit): nothing to attribute
+            if not confirm:
+                o1, rc1, err1 = [], rc, err
+            else:
+                o1, rc1, err1 = _run_once(core, cmd, [todo[idx]], single_timeout)
+            if rc1 != 0:
+                crashers.append((todo[idx], rc1, err1))
+            elif o1:
+                omap[o1[0].split(" ", 1)[0]] = o1[0]
+            todo = todo[idx + 1:]
+        return omap, crashers
+
+    omap, crashers = {}, []
+    with ThreadPoolExecutor(jobs) as ex:
+        for om, cr in ex.map(work, chunks):
+            omap.update(om); crashers += cr
     return omap, crashers
 
 
@@ -227,7 +264,7 @@ def check_wfx(core, chk, b, cases, excuse, maxbuf=700, limit=10):
         cid = l.split(" ", 1)[0]
         if cid in crashed:
             c, r, e = crashed[cid]
-            if excuse(l, "crash", e):
+            if excuse(l, "crash", e if r != "timeout" else "timeout"):
                 res["crash_known"] += 1
             else:
                 if res["violations"] < limit:
